@@ -45,6 +45,10 @@ def main():
     rc, o = sh("git status --short", cwd=wt)
     if o.strip():
         sh("git checkout -- .", cwd=wt)
+    # the scratch worktree follows /repo's HEAD (fix: commits made since the worktree was created), so that the checks of
+    # /verif, which describe the current tree, are not run against an older base
+    repo_head = sh("git rev-parse HEAD", cwd="/repo")[1].strip()
+    sh(f"git checkout -q --detach {repo_head}", cwd=wt)
     head = sh("git rev-parse --short HEAD", cwd=wt)[1].strip()
     out["base_commit"] = head
     rc0, o0 = sh(f"/venv/bin/python demo_{x}.py", cwd=base, timeout=600)
